@@ -159,6 +159,25 @@ def run(R):
                 R.count('replace', repr(a)[:200])
                 if not ok:
                     R.counterexample('replace', 'replace-semantics', case, 'new object differing only in the given field, metadata kept', repr(r)[:300])
+            # _replace with NO field (the only form an arity-0 class has) and with EVERY field: still a new, independent
+            # object - editing the result (a field, the metadata) must leave the original untouched
+            for kws in ({}, {x: getattr(a, x) for x in a._fields}):
+                a._metadata.position_info = (5, 6)
+                r = safe(lambda: a._replace(**kws))
+                R.count('replace-no-change', (repr(a)[:200], len(kws)))
+                ok = (r[0] == 'ok' and r[1] is not a and type(r[1]) is type(a) and r[1] == a
+                      and r[1]._metadata is not a._metadata and r[1]._metadata.position_info == (5, 6)
+                      and all(getattr(r[1], x) is getattr(a, x) for x in a._fields))
+                if ok:
+                    r[1]._metadata.position_info = (7, 8)
+                    if a._fields:
+                        was = getattr(a, a._fields[0])
+                        setattr(r[1], a._fields[0], 'EDITED')
+                        ok = getattr(a, a._fields[0]) is was
+                    ok = ok and a._metadata.position_info == (5, 6)
+                if not ok:
+                    R.counterexample('replace-no-change', 'replace-without-changes-is-not-a-new-object', case,
+                                     'a new, equal, independent object with the same metadata', repr(r)[:300])
             # sequences: the hash is cached on first use; _replace and copies made AFTERWARDS must still hash like
             # any equal object (equal objects have equal hashes whatever was done to them before)
             if a._fields:
